@@ -61,3 +61,4 @@ fn verif_policy_contracts() {
     }
     t_def.done();
 }
+
